@@ -123,8 +123,16 @@ def make_cases(seed, tier):
     for m, s in (("sunmd5", b"$md5,rounds=95905$abcdefgh$"), ("sunmd5", b"$md5$rounds=100000$salt"),
                  ("sunmd5", b"$md5,rounds=98303$x$"), ("sunmd5", b"$md5,rounds=5904$abcdefgh"),
                  ("sha512crypt", b"$6$rounds=99999$saltsalt"), ("sha256crypt", b"$5$rounds=100000$saltsalt"),
-                 ("sha1crypt", b"$sha1$100000$saltsalt$"), ("bsdicrypt", b"_zzz1salt")):
+                 ("sha1crypt", b"$sha1$100000$saltsalt$"), ("bsdicrypt", b"_zzz1salt"),
+                 ("sha1crypt", b"$sha1$50$" + b"Max.Length/Salt0" * 4), ("sha1crypt", b"$sha1$50$" + b"Max.Length/Salt0" * 3 + b"Max.Length/Salt")):
         cases.append((m, "fixed/" + m, gen.gen_phrase(rng, rng.choice([5, 20, 70])), s, 9.9))
+    for n in (51, 52, 53, 54, 55, 56, 63, 64, 116, 117, 119, 120):
+        sl = (b"SaltChars./0123456789" * 7)[:n]
+        cases.append(("scrypt", "fixed/scrypt-salt%d" % n, gen.gen_phrase(rng, 12), b"$7$5/..../...." + sl, 0.01))
+        if n <= 64:
+            raw = bytes((i * 37 + n) & 0xFF for i in range(n))
+            cases.append(("yescrypt", "fixed/y-salt%d" % n, gen.gen_phrase(rng, 12), b"$y$j5.$" + gen.yes_encode64(raw), 0.01))
+            cases.append(("gost_yescrypt", "fixed/gy-salt%d" % n, gen.gen_phrase(rng, 12), b"$gy$j5.$" + gen.yes_encode64(raw), 0.01))
     return cases
 
 
